@@ -341,6 +341,13 @@ namespace vg
                 return tiny[s.u8() % 9];
             case 2:
                 return huge[s.u8() % 7];
+            case 4:
+            {
+                // near the top of the double range, all of one sign: differences stay finite but
+                // products such as drop x distance or slope^p overflow
+                static const double giant[] = { 1e307, 2e307, 5e306, 8e307, 1.5e307, 1e306, 3e307 };
+                return giant[s.u8() % 7];
+            }
             default:
             {
                 size_t f = s.u8() % 3;
@@ -374,7 +381,9 @@ namespace vg
         size_t n = m.n;
         std::vector<double> z(n, 0.0);
         size_t cls = s.weighted({ 20, 60, 30, 40, 30, 30, 20, 26 });
-        int fam = ordinary_only ? 0 : static_cast<int>(s.weighted({ 150, 50, 20, 36 }));
+        int fam = ordinary_only ? 0 : static_cast<int>(s.weighted({ 146, 48, 18, 34, 10 }));
+        if (fam == 4)
+            cls = 1 + (cls & 1);  // gigantic values: palette or scaled integer noise only
         if (ordinary_only && cls == 6)
             cls = 2;  // no raw bit patterns (magnitudes up to 1e150) when ordinary values are asked for
         static const char* names[] = { "const", "palette", "int-noise", "tilt+pits", "rings", "smooth+noise", "raw", "adjacent-depressions" };
@@ -417,7 +426,7 @@ namespace vg
             }
             case 2:
             {
-                double scale = fam == 1 ? 5e-324 : (fam == 2 ? 1e148 : 1.0);
+                double scale = fam == 1 ? 5e-324 : (fam == 2 ? 1e148 : (fam == 4 ? 5e306 : 1.0));
                 size_t amp = 1 + s.u8() % 16;
                 for (auto& e : z)
                     e = static_cast<double>(nbts.u8() % amp) * scale;
